@@ -386,6 +386,17 @@ func runC18(e *Env) {
 		}
 		if !equalA(a, got) {
 			t.Fail("roundtrip-differs", "%s round trip via %s (%s, %q): bound %+v, encoded %+v (body %q)", format, via, method, ctype, got, a, body)
+			return
+		}
+		// the same request bound once more (a middleware and the handler both bind it): the parsed form
+		// belongs to the request, binding must not have changed it
+		if (format == "form" || format == "multipart" || format == "query") && via == "Auto" {
+			var again bindA
+			err2 := binding.Auto(req, &again)
+			t.Count("roundtrip.bound_twice", 1)
+			if err2 != nil || !equalA(a, again) {
+				t.Fail("second-bind-of-the-same-request-differs", "%s request (%s, %q) bound twice through Auto: first %+v, second %+v (err=%v), encoded %+v", format, method, ctype, got, again, err2, a)
+			}
 		}
 	})
 
